@@ -5,22 +5,27 @@
 From GL Require Import Conc.Cache Conc.CacheLemmas Conc.CacheInv.
 From Coq Require Import Lia.
 
-Record Inv (p : N -> Z) (s : state) : Prop := {
-  inv_s : InvS s; inv_r : InvR p s; inv_l : InvL s; inv_np : s_panic s = false }.
-
-Definition CapOk (s : state) : Prop := (s_used s <= Z.of_N (s_cap s))%Z.
-
 Ltac sred := cbn [s_nodes s_cacher s_cap s_used s_order s_handles s_closed s_forced s_stat_nodes
   s_stat_size s_next_nid s_next_vid s_next_hid s_next_did s_log s_panic set_nodes set_cap set_used
   set_order set_handles set_closed set_stats set_next_nid set_next_vid set_next_hid set_next_did
   set_log set_panic emit upd_node] in *.
+
+Section WithZq.
+Variable zq : N -> bool.
+
+Record Inv (p : N -> Z) (s : state) : Prop := {
+  inv_s : InvS s; inv_r : InvR zq p s; inv_l : InvL s; inv_np : s_panic s = false }.
+
+Definition CapOk (s : state) : Prop := (s_used s <= Z.of_N (s_cap s))%Z.
+
+
 
 Lemma Inv_pext p q s : (forall y, p y = q y) -> Inv p s -> Inv q s.
 Proof. intros E [A B C D]. split; auto. eapply RInv_pext; eauto. Qed.
 
 Lemma forced_false_of_open p s : Inv p s -> s_closed s = false -> s_forced s = false.
 Proof.
-  intros H Hc. destruct (s_forced s) eqn:E; auto. pose proof (ri_fc _ _ _ _ _ _ _ _ (inv_r _ _ H) E). congruence.
+  intros H Hc. destruct (s_forced s) eqn:E; auto. pose proof (ri_fc _ _ _ _ _ _ _ _ _ (inv_r _ _ H) E). congruence.
 Qed.
 
 Lemma p_nonneg_of_padd x p : (forall y, 0 <= padd x 1 p y)%Z -> (0 <= p x)%Z -> forall y, (0 <= p y)%Z.
@@ -103,7 +108,7 @@ Lemma unref_zero_ok p s x n :
 Proof.
   intros H Hpx Hc Hn Hx Hr. pose proof (forced_false_of_open _ _ H Hc) as Hfo.
   destruct H as [HS HR HL HP]. unfold InvS, InvR, InvL in *.
-  pose proof (ri_ref _ _ _ _ _ _ _ _ HR Hfo n Hn) as E. rewrite Hx, padd_same, Hr in E.
+  pose proof (ri_ref _ _ _ _ _ _ _ _ _ HR Hfo n Hn) as E. rewrite Hx, padd_same, Hr in E.
   pose proof (hcount_nonneg x (s_handles s)). pose proof (rcount_nonneg n).
   assert (hcount x (s_handles s) = 0%Z /\ rcount n = 0%Z /\ p x = 0%Z) as (Hh0 & Hrc & Hp0) by lia.
   assert (resident n = false) as Hres by (unfold rcount in Hrc; destruct (resident n); [lia|auto]).
@@ -135,17 +140,17 @@ Proof.
   split; unfold InvS, InvR, InvL; sred; auto.
   - eapply (SInv_upd _ _ _ _ x _ n); eauto with cache; try reflexivity.
     intro Hr. cbn. apply (si_resval _ _ _ _ HS n Hn Hr).
-  - eapply (RInv_upd (padd x 1 p) p _ _ _ _ _ _ _ _ x _ n); eauto with cache.
+  - eapply (RInv_upd zq (padd x 1 p) p _ _ _ _ _ _ _ _ x _ n); eauto with cache.
     + apply (si_ids _ _ _ _ HS).
-    + apply (p_nonneg_of_padd x); auto. apply (ri_p _ _ _ _ _ _ _ _ HR).
+    + apply (p_nonneg_of_padd x); auto. apply (ri_p _ _ _ _ _ _ _ _ _ HR).
     + intros y ne. now rewrite padd_other.
-    + intro Hfo. pose proof (ri_ref _ _ _ _ _ _ _ _ HR Hfo n Hn) as E. rewrite Hx, padd_same in E.
+    + intro Hfo. pose proof (ri_ref _ _ _ _ _ _ _ _ _ HR Hfo n Hn) as E. rewrite Hx, padd_same in E.
       change (n_ref n - 1 = hcount x (s_handles s) + rcount n + p x)%Z. lia.
-    + intros Hfo _. cbn. pose proof (ri_ref _ _ _ _ _ _ _ _ HR Hfo n Hn) as E. rewrite Hx, padd_same in E.
+    + intros Hfo _. cbn. pose proof (ri_ref _ _ _ _ _ _ _ _ _ HR Hfo n Hn) as E. rewrite Hx, padd_same in E.
       pose proof (hcount_nonneg x (s_handles s)). pose proof (rcount_nonneg n). lia.
-    + intros Hfo Hh. cbn. apply (ri_hval _ _ _ _ _ _ _ _ HR Hfo n Hn). now rewrite Hx.
+    + intros Hfo Hh. cbn. apply (ri_hval _ _ _ _ _ _ _ _ _ HR Hfo n Hn). now rewrite Hx.
     + intros _. unfold scontrib. cbn. lia.
-    + intros Hc. cbn. apply (ri_size0 _ _ _ _ _ _ _ _ HR Hc n Hn).
+    + intros Hc. cbn. apply (ri_size0 _ _ _ _ _ _ _ _ _ HR Hc n Hn).
   - apply LInv_upd_same; auto with cache.
 Qed.
 
@@ -157,7 +162,7 @@ Proof.
     destruct (Z.eqb_spec (n_ref n - 1) 0) as [e|ne].
     + rewrite e. apply unref_zero_ok; auto. lia.
     + apply dec_ok; auto.
-  - apply find_id_none in F. pose proof (ri_pdom _ _ _ _ _ _ _ _ (inv_r _ _ H) x F) as E.
+  - apply find_id_none in F. pose proof (ri_pdom _ _ _ _ _ _ _ _ _ (inv_r _ _ H) x F) as E.
     rewrite padd_same in E. lia.
 Qed.
 
@@ -176,7 +181,7 @@ Proof.
     + congruence.
     + unfold ucontrib. now rewrite Hres, Hres'.
     + congruence.
-  - eapply (RInv_upd q p _ _ _ _ _ _ _ _ x g n); [exact HR|apply (si_ids _ _ _ _ HS)|exact Hn|exact Hx|exact Hg|exact Hp|exact Hpq| | | | | ].
+  - eapply (RInv_upd zq q p _ _ _ _ _ _ _ _ x g n); [exact HR|apply (si_ids _ _ _ _ HS)|exact Hn|exact Hx|exact Hg|exact Hp|exact Hpq| | | | | ].
     + intro Hfo. destruct (Href Hfo) as [a b]. unfold rcount. rewrite Hres'. lia.
     + intros Hfo [e|[e|e]]; congruence.
     + intros Hfo Hh. destruct (Href Hfo). lia.
@@ -199,13 +204,13 @@ Proof.
   intros H Hpx Hfo. destruct (s_closed s) eqn:Hc.
   2: { rewrite unref_ext_int_open by auto. now apply unref_internal_ok. }
   unfold unref_external. rewrite Hc. destruct (find_id x (s_nodes s)) as [n|] eqn:F.
-  2: { apply find_id_none in F. pose proof (ri_pdom _ _ _ _ _ _ _ _ (inv_r _ _ H) x F) as E.
+  2: { apply find_id_none in F. pose proof (ri_pdom _ _ _ _ _ _ _ _ _ (inv_r _ _ H) x F) as E.
        rewrite padd_same in E. lia. }
   destruct (find_id_some _ _ _ F) as [Hn Hx].
   destruct (Z.eqb_spec (n_ref n - 1) 0) as [e|ne]; [|apply dec_ok; auto].
   destruct (s_forced s) eqn:Hf; [specialize (Hfo eq_refl n Hn Hx); lia|].
   pose proof H as [HS HR HL HP]. unfold InvS, InvR, InvL in *.
-  pose proof (ri_ref _ _ _ _ _ _ _ _ HR Hf n Hn) as E. rewrite Hx, padd_same in E.
+  pose proof (ri_ref _ _ _ _ _ _ _ _ _ HR Hf n Hn) as E. rewrite Hx, padd_same in E.
   pose proof (hcount_nonneg x (s_handles s)). pose proof (rcount_nonneg n).
   assert (hcount x (s_handles s) = 0%Z /\ rcount n = 0%Z /\ p x = 0%Z) as (Hh0 & Hrc & Hp0) by lia.
   assert (resident n = false) as Hres by (unfold rcount in Hrc; destruct (resident n); [lia|auto]).
@@ -215,7 +220,7 @@ Proof.
     with (fin_log n false (s_log s)).
   eapply (finalize_inplace (padd x 1 p) p s x n); eauto.
   - intro m. repeat split.
-  - apply (p_nonneg_of_padd x); auto. apply (ri_p _ _ _ _ _ _ _ _ HR).
+  - apply (p_nonneg_of_padd x); auto. apply (ri_p _ _ _ _ _ _ _ _ _ HR).
   - intros y ne. now rewrite padd_other.
   - intros _. cbn. split; lia.
 Qed.
@@ -262,15 +267,15 @@ Proof.
   unfold evict_one. split; unfold InvS, InvR, InvL; sred; auto.
   - rewrite <- (remove_order_head x ord') by (rewrite <- Ho; apply (si_ord_nd _ _ _ _ HS)).
     rewrite <- Ho. apply SInv_unlink; auto. discriminate.
-  - eapply (RInv_upd p (padd x 1 p) _ _ _ _ _ _ _ _ x _ n); [exact HR|apply (si_ids _ _ _ _ HS)|exact Hn|exact Hx|auto with cache| | | | | | | ].
-    + intro y. unfold padd. pose proof (ri_p _ _ _ _ _ _ _ _ HR y). destruct (y =? x); lia.
+  - eapply (RInv_upd zq p (padd x 1 p) _ _ _ _ _ _ _ _ x _ n); [exact HR|apply (si_ids _ _ _ _ HS)|exact Hn|exact Hx|auto with cache| | | | | | | ].
+    + intro y. unfold padd. pose proof (ri_p _ _ _ _ _ _ _ _ _ HR y). destruct (y =? x); lia.
     + intros y ne. now rewrite padd_other.
-    + intro Hfo. pose proof (ri_ref _ _ _ _ _ _ _ _ HR Hfo n Hn) as E. rewrite Hx in E. rewrite padd_same.
+    + intro Hfo. pose proof (ri_ref _ _ _ _ _ _ _ _ _ HR Hfo n Hn) as E. rewrite Hx in E. rewrite padd_same.
       unfold rcount in *. rewrite Hres in E. cbn. lia.
-    + intros Hfo Hc. cbn in *. apply (ri_pos _ _ _ _ _ _ _ _ HR Hfo n Hn Hc).
-    + intros Hfo Hh. cbn. apply (ri_hval _ _ _ _ _ _ _ _ HR Hfo n Hn). now rewrite Hx.
+    + intros Hfo Hc. cbn in *. apply (ri_pos _ _ _ _ _ _ _ _ _ HR Hfo n Hn Hc).
+    + intros Hfo Hh. cbn. apply (ri_hval _ _ _ _ _ _ _ _ _ HR Hfo n Hn). now rewrite Hx.
     + intros _. unfold scontrib. cbn. lia.
-    + intros Hc. cbn. apply (ri_size0 _ _ _ _ _ _ _ _ HR Hc n Hn).
+    + intros Hc. cbn. apply (ri_size0 _ _ _ _ _ _ _ _ _ HR Hc n Hn).
   - apply LInv_upd_same; auto with cache.
 Qed.
 
@@ -345,7 +350,7 @@ Proof.
   destruct (evict_loop_ok _ _ _ _ _ H' eq_refl E) as (A & B & D).
   assert (s_forced s1 = false) as Hf1 by (destruct D as (_ & _ & e & _); sred; congruence).
   split; [|split].
-  - apply release_all_ok; auto. apply (ri_p _ _ _ _ _ _ _ _ (inv_r _ _ H)).
+  - apply release_all_ok; auto. apply (ri_p _ _ _ _ _ _ _ _ _ (inv_r _ _ H)).
   - eapply same_lru_capok; [apply release_all_same|exact B].
   - eapply same_misc_trans; [exact D|]. apply same_lru_misc, release_all_same.
 Qed.
@@ -361,7 +366,7 @@ Proof.
   destruct (n_lru n) eqn:L.
   - (* not linked *)
     destruct (n_size n <=? s_cap s) eqn:Csz; [|split; [|split]; auto using same_misc_refl].
-    pose proof (ri_ref _ _ _ _ _ _ _ _ HR Hfo n Hn) as E. rewrite Hx in E.
+    pose proof (ri_ref _ _ _ _ _ _ _ _ _ HR Hfo n Hn) as E. rewrite Hx in E.
     pose proof (hcount_nonneg x (s_handles s)). pose proof (rcount_nonneg n).
     assert (n_ref n + 1 <=? 1 = false)%Z as -> by (apply Z.leb_gt; lia).
     assert (resident n = false) as Hres by (unfold resident; now rewrite L).
@@ -373,7 +378,7 @@ Proof.
       - assert (pres f) as Hpf by (intro m; repeat split).
         apply (SInv_link _ _ _ _ x f n); auto.
       - assert (pres f) as Hpf by (intro m; repeat split).
-        eapply (RInv_upd p p _ _ _ _ _ _ _ _ x f n); [exact HR|apply (si_ids _ _ _ _ HS)|exact Hn|exact Hx|exact Hpf|apply (ri_p _ _ _ _ _ _ _ _ HR)|auto| | | | | ].
+        eapply (RInv_upd zq p p _ _ _ _ _ _ _ _ x f n); [exact HR|apply (si_ids _ _ _ _ HS)|exact Hn|exact Hx|exact Hpf|apply (ri_p _ _ _ _ _ _ _ _ _ HR)|auto| | | | | ].
         + intros _. unfold rcount in *. rewrite Hres in E. subst f. cbn. lia.
         + intros _ _. subst f. cbn. lia.
         + intros _ _. exact Hv.
@@ -384,7 +389,7 @@ Proof.
     destruct (evict_loop_ok _ _ _ _ _ H2 eq_refl E3) as (A & B & D).
     assert (s_forced s3 = false) as Hf3 by (destruct D as (_ & _ & e & _); subst s2; unfold upd_node in e; sred; congruence).
     split; [|split].
-    + apply release_all_ok; auto. apply (ri_p _ _ _ _ _ _ _ _ HR).
+    + apply release_all_ok; auto. apply (ri_p _ _ _ _ _ _ _ _ _ HR).
     + eapply same_lru_capok; [apply release_all_same|exact B].
     + eapply same_misc_trans; [|apply same_lru_misc, release_all_same].
       eapply same_misc_trans; [|exact D]. subst s2. unfold upd_node. repeat split.
@@ -414,13 +419,13 @@ Proof.
     + eapply (SInv_upd _ _ _ _ x _ n); eauto with cache.
       * unfold ucontrib. cbn. unfold resident in *. cbn. now rewrite L.
       * congruence.
-    + eapply (RInv_upd p p _ _ _ _ _ _ _ _ x _ n); [exact HR|apply (si_ids _ _ _ _ HS)|exact Hn|exact Hx|auto with cache|apply (ri_p _ _ _ _ _ _ _ _ HR)|auto| | | | | ].
-      * intros _. pose proof (ri_ref _ _ _ _ _ _ _ _ HR Hfo n Hn) as E. rewrite Hx in E.
+    + eapply (RInv_upd zq p p _ _ _ _ _ _ _ _ x _ n); [exact HR|apply (si_ids _ _ _ _ HS)|exact Hn|exact Hx|auto with cache|apply (ri_p _ _ _ _ _ _ _ _ _ HR)|auto| | | | | ].
+      * intros _. pose proof (ri_ref _ _ _ _ _ _ _ _ _ HR Hfo n Hn) as E. rewrite Hx in E.
         unfold rcount in *. rewrite Hres in E. cbn. lia.
-      * intros _ Hq. cbn in *. apply (ri_pos _ _ _ _ _ _ _ _ HR Hfo n Hn Hq).
-      * intros _ Hh. cbn. apply (ri_hval _ _ _ _ _ _ _ _ HR Hfo n Hn). now rewrite Hx.
+      * intros _ Hq. cbn in *. apply (ri_pos _ _ _ _ _ _ _ _ _ HR Hfo n Hn Hq).
+      * intros _ Hh. cbn. apply (ri_hval _ _ _ _ _ _ _ _ _ HR Hfo n Hn). now rewrite Hx.
       * intros _. unfold scontrib. cbn. lia.
-      * intros _. cbn. apply (ri_size0 _ _ _ _ _ _ _ _ HR Hc n Hn).
+      * intros _. cbn. apply (ri_size0 _ _ _ _ _ _ _ _ _ HR Hc n Hn).
     + apply LInv_upd_same; auto with cache.
   - assert (resident n = true) as Hres by (unfold resident; now rewrite L).
     assert (In x (s_order s)) as Hin by (apply (si_ord _ _ _ _ HS); exists n; auto).
@@ -429,18 +434,18 @@ Proof.
     assert (Inv (padd x 1 p) s2) as H2.
     { subst s2. split; unfold InvS, InvR, InvL; unfold upd_node; sred; auto.
       - apply SInv_unlink; auto. discriminate.
-      - eapply (RInv_upd p (padd x 1 p) _ _ _ _ _ _ _ _ x _ n); [exact HR|apply (si_ids _ _ _ _ HS)|exact Hn|exact Hx|auto with cache| | | | | | | ].
-        + intro y. unfold padd. pose proof (ri_p _ _ _ _ _ _ _ _ HR y). destruct (y =? x); lia.
+      - eapply (RInv_upd zq p (padd x 1 p) _ _ _ _ _ _ _ _ x _ n); [exact HR|apply (si_ids _ _ _ _ HS)|exact Hn|exact Hx|auto with cache| | | | | | | ].
+        + intro y. unfold padd. pose proof (ri_p _ _ _ _ _ _ _ _ _ HR y). destruct (y =? x); lia.
         + intros y ne. now rewrite padd_other.
-        + intros _. pose proof (ri_ref _ _ _ _ _ _ _ _ HR Hfo n Hn) as E. rewrite Hx in E. rewrite padd_same.
+        + intros _. pose proof (ri_ref _ _ _ _ _ _ _ _ _ HR Hfo n Hn) as E. rewrite Hx in E. rewrite padd_same.
           unfold rcount in *. rewrite Hres in E. cbn. lia.
-        + intros _ Hq. cbn in *. apply (ri_pos _ _ _ _ _ _ _ _ HR Hfo n Hn Hq).
-        + intros _ Hh. cbn. apply (ri_hval _ _ _ _ _ _ _ _ HR Hfo n Hn). now rewrite Hx.
+        + intros _ Hq. cbn in *. apply (ri_pos _ _ _ _ _ _ _ _ _ HR Hfo n Hn Hq).
+        + intros _ Hh. cbn. apply (ri_hval _ _ _ _ _ _ _ _ _ HR Hfo n Hn). now rewrite Hx.
         + intros _. unfold scontrib. cbn. lia.
-        + intros _. cbn. apply (ri_size0 _ _ _ _ _ _ _ _ HR Hc n Hn).
+        + intros _. cbn. apply (ri_size0 _ _ _ _ _ _ _ _ _ HR Hc n Hn).
       - apply LInv_upd_same; auto with cache. }
     split; [|split].
-    + apply unref_external_ok; auto. apply (ri_p _ _ _ _ _ _ _ _ HR).
+    + apply unref_external_ok; auto. apply (ri_p _ _ _ _ _ _ _ _ _ HR).
       subst s2. unfold upd_node. sred. intro; congruence.
     + eapply same_misc_trans; [|apply same_lru_misc, unref_external_same]. subst s2. unfold upd_node. repeat split.
     + intro Hcap. eapply same_lru_capok; [apply unref_external_same|]. subst s2. unfold CapOk, upd_node in *. sred. lia.
@@ -473,18 +478,18 @@ Proof.
     assert (Inv (padd x 1 p) s2) as H2.
     { subst s2. split; unfold InvS, InvR, InvL; unfold upd_node; sred; auto.
       - apply SInv_unlink; auto. discriminate.
-      - eapply (RInv_upd p (padd x 1 p) _ _ _ _ _ _ _ _ x _ n); [exact HR|apply (si_ids _ _ _ _ HS)|exact Hn|exact Hx|auto with cache| | | | | | | ].
-        + intro y. unfold padd. pose proof (ri_p _ _ _ _ _ _ _ _ HR y). destruct (y =? x); lia.
+      - eapply (RInv_upd zq p (padd x 1 p) _ _ _ _ _ _ _ _ x _ n); [exact HR|apply (si_ids _ _ _ _ HS)|exact Hn|exact Hx|auto with cache| | | | | | | ].
+        + intro y. unfold padd. pose proof (ri_p _ _ _ _ _ _ _ _ _ HR y). destruct (y =? x); lia.
         + intros y ne. now rewrite padd_other.
-        + intros Hfo. pose proof (ri_ref _ _ _ _ _ _ _ _ HR Hfo n Hn) as E. rewrite Hx in E. rewrite padd_same.
+        + intros Hfo. pose proof (ri_ref _ _ _ _ _ _ _ _ _ HR Hfo n Hn) as E. rewrite Hx in E. rewrite padd_same.
           unfold rcount in *. rewrite Hres in E. cbn. lia.
-        + intros Hfo Hq. cbn in *. apply (ri_pos _ _ _ _ _ _ _ _ HR Hfo n Hn Hq).
-        + intros Hfo Hh. cbn. apply (ri_hval _ _ _ _ _ _ _ _ HR Hfo n Hn). now rewrite Hx.
+        + intros Hfo Hq. cbn in *. apply (ri_pos _ _ _ _ _ _ _ _ _ HR Hfo n Hn Hq).
+        + intros Hfo Hh. cbn. apply (ri_hval _ _ _ _ _ _ _ _ _ HR Hfo n Hn). now rewrite Hx.
         + intros _. unfold scontrib. cbn. lia.
-        + intros Hc. cbn. apply (ri_size0 _ _ _ _ _ _ _ _ HR Hc n Hn).
+        + intros Hc. cbn. apply (ri_size0 _ _ _ _ _ _ _ _ _ HR Hc n Hn).
       - apply LInv_upd_same; auto with cache. }
     split; [|split; [|split]].
-    + apply unref_external_ok; auto. apply (ri_p _ _ _ _ _ _ _ _ HR).
+    + apply unref_external_ok; auto. apply (ri_p _ _ _ _ _ _ _ _ _ HR).
       subst s2. unfold upd_node. sred. intros Hfo m Hm Hmx. apply in_upd in Hm. destruct Hm as (m0 & Hm0 & ->).
       destruct (N.eqb_spec (n_id m0) x) as [e|ne]; [cbn|]; apply (Hforced Hfo m0 Hm0); auto.
     + eapply same_misc_trans; [|apply same_lru_misc, unref_external_same]. subst s2. unfold upd_node. repeat split.
@@ -634,16 +639,16 @@ Lemma promote_link_ok p s x n :
 Proof.
   intros H Hc Hn Hx Hv L. pose proof (forced_false_of_open _ _ H Hc) as Hfo.
   pose proof H as [HS HR HL HP]. unfold InvS, InvR, InvL in *.
-  pose proof (ri_ref _ _ _ _ _ _ _ _ HR Hfo n Hn) as E. rewrite Hx in E.
+  pose proof (ri_ref _ _ _ _ _ _ _ _ _ HR Hfo n Hn) as E. rewrite Hx in E.
   pose proof (hcount_nonneg x (s_handles s)). pose proof (rcount_nonneg n).
   assert (resident n = false) as Hres by (unfold resident; now rewrite L).
   set (f := fun n0 : node => nd_lru LResident (nd_ref (n_ref n0 + 1)%Z n0)).
   assert (pres f) as Hpf by (intro m; repeat split).
   unfold promote_link. fold f. split; unfold InvS, InvR, InvL; unfold upd_node; sred; auto.
   - apply (SInv_link _ _ _ _ x f n); auto.
-  - eapply (RInv_upd p p _ _ _ _ _ _ _ _ x f n); [exact HR|apply (si_ids _ _ _ _ HS)|exact Hn|exact Hx|exact Hpf|apply (ri_p _ _ _ _ _ _ _ _ HR)|auto| | | | | ].
+  - eapply (RInv_upd zq p p _ _ _ _ _ _ _ _ x f n); [exact HR|apply (si_ids _ _ _ _ HS)|exact Hn|exact Hx|exact Hpf|apply (ri_p _ _ _ _ _ _ _ _ _ HR)|auto| | | | | ].
     + intros _. unfold rcount in *. rewrite Hres in E. subst f. cbn. lia.
-    + intros _ _. subst f. cbn. pose proof (ri_p _ _ _ _ _ _ _ _ HR x). lia.
+    + intros _ _. subst f. cbn. pose proof (ri_p _ _ _ _ _ _ _ _ _ HR x). lia.
     + intros _ _. exact Hv.
     + intros _. unfold scontrib. subst f. cbn. lia.
     + intros _ e. subst f. cbn in e. congruence.
@@ -659,7 +664,7 @@ Proof.
   unfold lru_promote. rewrite <- Hx, (find_id_in _ n (si_ids _ _ _ _ HS) Hn), Hx.
   destruct (n_lru n) eqn:L; [|unfold Ext, order_remove; destruct (in_order x (s_order s)); sred; apply ExtN_refl|apply ExtN_refl].
   destruct (n_size n <=? s_cap s); [|apply ExtN_refl].
-  pose proof (ri_ref _ _ _ _ _ _ _ _ HR Hfo n Hn) as E. rewrite Hx in E.
+  pose proof (ri_ref _ _ _ _ _ _ _ _ _ HR Hfo n Hn) as E. rewrite Hx in E.
   pose proof (hcount_nonneg x (s_handles s)). pose proof (rcount_nonneg n).
   assert (n_ref n + 1 <=? 1 = false)%Z as -> by (apply Z.leb_gt; lia).
   change (Ext s (let (s3, ev) := run_evict_loop (promote_link x n s) in release_all ev s3)).
@@ -721,16 +726,17 @@ Proof.
     + split; unfold InvS, InvR, InvL; unfold upd_node; sred; auto.
       * eapply (SInv_upd _ _ _ _ (n_id n) _ n); eauto with cache; try reflexivity.
         intro Hr. cbn. apply (si_resval _ _ _ _ HS n Hn Hr).
-      * eapply (RInv_upd p (padd (n_id n) 1 p) _ _ _ _ _ _ _ _ (n_id n) _ n);
+      * eapply (RInv_upd zq p (padd (n_id n) 1 p) _ _ _ _ _ _ _ _ (n_id n) _ n);
           [exact HR|apply (si_ids _ _ _ _ HS)|exact Hn|reflexivity|auto with cache| | | | | | | ].
-        -- apply padd_nonneg. apply (ri_p _ _ _ _ _ _ _ _ HR).
+        -- apply padd_nonneg. apply (ri_p _ _ _ _ _ _ _ _ _ HR).
         -- intros y ne. now rewrite padd_other.
-        -- intros _. pose proof (ri_ref _ _ _ _ _ _ _ _ HR Hfo n Hn) as E. rewrite padd_same.
+        -- intros _. pose proof (ri_ref _ _ _ _ _ _ _ _ _ HR Hfo n Hn) as E. rewrite padd_same.
            change (n_ref n + 1 = hcount (n_id n) (s_handles s) + rcount n + (p (n_id n) + 1))%Z. lia.
-        -- intros _ _. cbn. pose proof (ri_pos _ _ _ _ _ _ _ _ HR Hfo n Hn (or_introl Hc)). lia.
-        -- intros _ Hh. cbn. apply (ri_hval _ _ _ _ _ _ _ _ HR Hfo n Hn Hh).
+        -- intros _ _ _. cbn. pose proof (ri_ref _ _ _ _ _ _ _ _ _ HR Hfo n Hn) as E.
+           pose proof (hcount_nonneg (n_id n) (s_handles s)). pose proof (rcount_nonneg n). pose proof (ri_p _ _ _ _ _ _ _ _ _ HR (n_id n)). lia.
+        -- intros _ Hh. cbn. apply (ri_hval _ _ _ _ _ _ _ _ _ HR Hfo n Hn Hh).
         -- intros _. unfold scontrib. cbn. lia.
-        -- intros _. cbn. apply (ri_size0 _ _ _ _ _ _ _ _ HR Hc n Hn).
+        -- intros _. cbn. apply (ri_size0 _ _ _ _ _ _ _ _ _ HR Hc n Hn).
       * apply LInv_upd_same; auto with cache.
     + exists (nd_ref (n_ref n + 1) n). split; [|repeat split; cbn; auto].
       unfold upd_node. sred. apply in_upd_same; auto.
@@ -764,12 +770,12 @@ Proof.
     + eapply (SInv_upd _ _ _ _ x _ n); eauto with cache; try reflexivity.
       * unfold ucontrib. change (resident (nd_val (Some (s_next_vid s)) sz n)) with (resident n). now rewrite Hres.
       * congruence.
-    + eapply (RInv_upd p p _ _ _ _ _ _ _ _ x _ n);
-        [exact HR|apply (si_ids _ _ _ _ HS)|exact Hn|exact Hx|auto with cache|apply (ri_p _ _ _ _ _ _ _ _ HR)|auto| | | | | ].
-      * intros _. rewrite <- Hx. apply (ri_ref _ _ _ _ _ _ _ _ HR Hfo n Hn).
-      * intros _ _. cbn. apply (ri_pos _ _ _ _ _ _ _ _ HR Hfo n Hn (or_introl Hc)).
+    + eapply (RInv_upd zq p p _ _ _ _ _ _ _ _ x _ n);
+        [exact HR|apply (si_ids _ _ _ _ HS)|exact Hn|exact Hx|auto with cache|apply (ri_p _ _ _ _ _ _ _ _ _ HR)|auto| | | | | ].
+      * intros _. rewrite <- Hx. apply (ri_ref _ _ _ _ _ _ _ _ _ HR Hfo n Hn).
+      * intros _ _. cbn. apply (ri_pos _ _ _ _ _ _ _ _ _ HR Hfo n Hn (or_introl Hc)).
       * intros _ _. cbn. discriminate.
-      * intros _. unfold scontrib. cbn. rewrite (ri_size0 _ _ _ _ _ _ _ _ HR Hc n Hn Hv). lia.
+      * intros _. unfold scontrib. cbn. rewrite (ri_size0 _ _ _ _ _ _ _ _ _ HR Hc n Hn Hv). lia.
       * intros _. cbn. discriminate.
     + rewrite Hc in *. apply LInv_construct with (n := n); auto. apply (si_ids _ _ _ _ HS).
       rewrite <- Hx. apply (si_fresh _ _ _ _ HS n Hn).
@@ -792,12 +798,12 @@ Proof.
     + eapply (SInv_upd _ _ _ _ x _ n); eauto with cache; try reflexivity.
       * unfold ucontrib. change (resident (nd_val None 0 n)) with (resident n). now rewrite Hres.
       * congruence.
-    + eapply (RInv_upd p p _ _ _ _ _ _ _ _ x _ n);
-        [exact HR|apply (si_ids _ _ _ _ HS)|exact Hn|exact Hx|auto with cache|apply (ri_p _ _ _ _ _ _ _ _ HR)|auto| | | | | ].
-      * intros _. rewrite <- Hx. apply (ri_ref _ _ _ _ _ _ _ _ HR Hfo n Hn).
-      * intros _ _. cbn. apply (ri_pos _ _ _ _ _ _ _ _ HR Hfo n Hn (or_introl Hc)).
-      * intros _ Hh. exfalso. apply (ri_hval _ _ _ _ _ _ _ _ HR Hfo n Hn); auto. now rewrite Hx.
-      * intros _. unfold scontrib. cbn. rewrite (ri_size0 _ _ _ _ _ _ _ _ HR Hc n Hn Hv). lia.
+    + eapply (RInv_upd zq p p _ _ _ _ _ _ _ _ x _ n);
+        [exact HR|apply (si_ids _ _ _ _ HS)|exact Hn|exact Hx|auto with cache|apply (ri_p _ _ _ _ _ _ _ _ _ HR)|auto| | | | | ].
+      * intros _. rewrite <- Hx. apply (ri_ref _ _ _ _ _ _ _ _ _ HR Hfo n Hn).
+      * intros _ _. cbn. apply (ri_pos _ _ _ _ _ _ _ _ _ HR Hfo n Hn (or_introl Hc)).
+      * intros _ Hh. exfalso. apply (ri_hval _ _ _ _ _ _ _ _ _ HR Hfo n Hn); auto. now rewrite Hx.
+      * intros _. unfold scontrib. cbn. rewrite (ri_size0 _ _ _ _ _ _ _ _ _ HR Hc n Hn Hv). lia.
       * intros _ _. reflexivity.
     + apply LInv_neutral; [|exact I]. apply LInv_upd_same; auto with cache.
       intros m Hm Hmx. assert (m = n) as -> by (eapply same_id_eq; eauto; [apply (si_ids _ _ _ _ HS)|congruence]).
@@ -821,7 +827,7 @@ Lemma node_of_pend p s x : Inv p s -> (0 < p x)%Z -> exists n, In n (s_nodes s) 
 Proof.
   intros H Hp. destruct (in_dec N.eq_dec x (ids (s_nodes s))) as [Hin|Hnin].
   - unfold ids in Hin. apply in_map_iff in Hin. destruct Hin as (n & e & Hn). eauto.
-  - pose proof (ri_pdom _ _ _ _ _ _ _ _ (inv_r _ _ H) x Hnin). lia.
+  - pose proof (ri_pdom _ _ _ _ _ _ _ _ _ (inv_r _ _ H) x Hnin). lia.
 Qed.
 
 Lemma get_finish_ok s x n :
@@ -851,7 +857,7 @@ Proof.
   pose proof H1 as [_ HR1 HL1 HP1]. unfold InvR, InvL in *.
   split; [|split; [|split; [|split]]].
   - split; unfold InvS, InvR, InvL; sred; auto.
-    eapply RInv_pext; [|eapply (RInv_hadd _ _ _ _ _ _ _ _ x n1); eauto].
+    eapply RInv_pext; [|eapply (RInv_hadd _ _ _ _ _ _ _ _ _ x n1); eauto].
     + intro y. unfold padd, p0. destruct (y =? x); lia.
     + rewrite padd_same. unfold p0. lia.
     + intros _. congruence.
@@ -1000,9 +1006,9 @@ Proof.
   set (s0 := set_handles _ s).
   pose proof H as [HS HR HL HP]. unfold InvS, InvR, InvL in *.
   assert (Inv (padd x 1 p0) s0) as H0.
-  { subst s0. split; unfold InvS, InvR, InvL; sred; auto. apply (RInv_hdel _ _ _ _ _ _ _ _ h x HR Hin). }
+  { subst s0. split; unfold InvS, InvR, InvL; sred; auto. apply (RInv_hdel _ _ _ _ _ _ _ _ _ h x HR Hin). }
   assert (s_forced s0 = true -> forall n, In n (s_nodes s0) -> n_id n = x -> (n_ref n <= 0)%Z) as Hfo.
-  { subst s0. sred. intros Hf n Hn _. assert (s_closed s = true) as Hc by (apply (ri_fc _ _ _ _ _ _ _ _ HR Hf)).
+  { subst s0. sred. intros Hf n Hn _. assert (s_closed s = true) as Hc by (apply (ri_fc _ _ _ _ _ _ _ _ _ HR Hf)).
     destruct (Hcr Hc) as (_ & D). apply (D Hf n Hn). }
   pose proof (unref_external_ok p0 s0 x H0 ltac:(unfold p0; lia) Hfo) as H1.
   destruct (unref_external_same x s0) as (a1 & a2 & a3 & a4 & a5 & a6 & a7 & a8 & a9 & a10 & a11).
@@ -1031,13 +1037,13 @@ Proof.
   - split; unfold InvS, InvR, InvL; unfold upd_node; sred; auto.
     + eapply (SInv_upd _ _ _ _ x _ n); eauto with cache; try reflexivity.
       intro Hr. cbn. apply (si_resval _ _ _ _ HS n Hn Hr).
-    + eapply (RInv_upd p p _ _ _ _ _ _ _ _ x _ n);
-        [exact HR|apply (si_ids _ _ _ _ HS)|exact Hn|exact Hx|auto with cache|apply (ri_p _ _ _ _ _ _ _ _ HR)|auto| | | | | ].
-      * intros _. rewrite <- Hx. apply (ri_ref _ _ _ _ _ _ _ _ HR Hfo n Hn).
-      * intros _ _. cbn. apply (ri_pos _ _ _ _ _ _ _ _ HR Hfo n Hn (or_introl Hc)).
-      * intros _ Hh. cbn. apply (ri_hval _ _ _ _ _ _ _ _ HR Hfo n Hn). now rewrite Hx.
+    + eapply (RInv_upd zq p p _ _ _ _ _ _ _ _ x _ n);
+        [exact HR|apply (si_ids _ _ _ _ HS)|exact Hn|exact Hx|auto with cache|apply (ri_p _ _ _ _ _ _ _ _ _ HR)|auto| | | | | ].
+      * intros _. rewrite <- Hx. apply (ri_ref _ _ _ _ _ _ _ _ _ HR Hfo n Hn).
+      * intros _ _. cbn. apply (ri_pos _ _ _ _ _ _ _ _ _ HR Hfo n Hn (or_introl Hc)).
+      * intros _ Hh. cbn. apply (ri_hval _ _ _ _ _ _ _ _ _ HR Hfo n Hn). now rewrite Hx.
       * intros _. unfold scontrib. cbn. lia.
-      * intros _. cbn. apply (ri_size0 _ _ _ _ _ _ _ _ HR Hc n Hn).
+      * intros _. cbn. apply (ri_size0 _ _ _ _ _ _ _ _ _ HR Hc n Hn).
     + rewrite Hc in *. apply LInv_delreg; auto. apply (si_ids _ _ _ _ HS).
       rewrite <- Hx. apply (si_fresh _ _ _ _ HS n Hn).
   - unfold Ext, upd_node. sred. apply ExtN_upd; [auto with cache|]. intros m _ _. split; auto.
@@ -1245,7 +1251,7 @@ Lemma close_node_true_ok s x :
       (n_id m' <> x /\ exists m, In m (s_nodes s) /\ n_id m = n_id m' /\ (dead m -> dead m'))).
 Proof.
   intros H Hcap Hf Hnc. pose proof H as [HS HR HL HP]. unfold InvS, InvR, InvL in *.
-  assert (s_closed s = true) as Hc by (apply (ri_fc _ _ _ _ _ _ _ _ HR Hf)).
+  assert (s_closed s = true) as Hc by (apply (ri_fc _ _ _ _ _ _ _ _ _ HR Hf)).
   unfold close_node.
   (* 1. ref := 0 *)
   set (s1 := upd_node x (nd_ref 0%Z) s).
@@ -1255,8 +1261,8 @@ Proof.
       split; unfold InvS, InvR, InvL; unfold upd_node; sred; auto.
       + eapply (SInv_upd _ _ _ _ x _ n); eauto with cache; try reflexivity.
         intro Hr. cbn. apply (si_resval _ _ _ _ HS n Hn Hr).
-      + eapply (RInv_upd p0 p0 _ _ _ _ _ _ _ _ x _ n);
-          [exact HR|apply (si_ids _ _ _ _ HS)|exact Hn|exact Hx|auto with cache|apply (ri_p _ _ _ _ _ _ _ _ HR)|auto| | | | | ];
+      + eapply (RInv_upd zq p0 p0 _ _ _ _ _ _ _ _ x _ n);
+          [exact HR|apply (si_ids _ _ _ _ HS)|exact Hn|exact Hx|auto with cache|apply (ri_p _ _ _ _ _ _ _ _ _ HR)|auto| | | | | ];
           try (intro; congruence).
       + apply LInv_upd_same; auto with cache.
     - apply find_id_none in F. split; unfold InvS, InvR, InvL; unfold upd_node; sred; rewrite ?(upd_absent x _ _ F); auto. }
@@ -1304,7 +1310,7 @@ Proof.
     assert (Inv p0 (set_log (fin_log n2 true (s_log s2)) (set_nodes (upd_id x g (s_nodes s2)) s2))) as H3.
     { apply (finalize_inplace p0 p0 s2 x n2 g true); auto.
       - intro m; repeat split.
-      - apply (ri_p _ _ _ _ _ _ _ _ HR).
+      - apply (ri_p _ _ _ _ _ _ _ _ _ HR).
       - intro; congruence. }
     split; [exact H3|]. split; [unfold CapOk, upd_node in *; sred; exact Hcap2|].
     split; [eapply same_misc_trans; [exact M1|]; eapply same_misc_trans; [exact M2|]; unfold upd_node; repeat split|].
@@ -1661,3 +1667,5 @@ Proof.
   rewrite step_raw_fst in P. unfold step. pose proof (step_raw_panic s o) as Q.
   destruct (step_raw s o) as [s' r]. cbn [fst snd] in *. rewrite P. intro e. specialize (Q e). congruence.
 Qed.
+
+End WithZq.
